@@ -10,7 +10,7 @@ import (
 
 // H_C11_ReadMapping: free-form input to ReadMapping (N in 0..Nmax, size field and all string lengths symbolic): no errors => Data() == consumed bytes, remainder is the suffix, extent is 2+size.
 //
-//verif:props C11 C01 C03
+//verif:props C11 C01 C03 C04
 //verif:witness accepted nonempty
 func H_C11_ReadMapping() {
 	max := 12
